@@ -434,14 +434,19 @@ def driver_line(d, table):
 # --------------------------------------------------------------------------
 # running one scenario
 
+_REBUILT = {}
+
+
 def run_scenario(binp, sc, timeout=600):
     text = "\n".join(sc["ops"]) + "\n"
-    for attempt in range(3):
+    for attempt in range(4):
+        path = _REBUILT.get(str(binp), binp)
         try:
-            return vlib.run_bin(binp, stdin_text=text, timeout=timeout, env_extra={"VERIF_REPO": str(vlib.REPO)})
+            return vlib.run_bin(path, stdin_text=text, timeout=timeout, env_extra={"VERIF_REPO": str(vlib.REPO)})
         except FileNotFoundError:
             # the shared build cache keeps only a few trees; a concurrent check of another tree may have pruned ours
-            vlib.build_harness("h_c14")
+            # (if the working tree changed meanwhile, the rebuilt binary is of the current tree)
+            _REBUILT[str(binp)] = vlib.build_harness("h_c14")
     raise vlib.BuildError("harness binary keeps disappearing from the build cache")
 
 
